@@ -436,8 +436,10 @@ func (m *Muxer) Close() {
 	m.mutex.Lock()
 	m.closed = true
 	m.mutex.Unlock()
+	verifPoint("close.flagged", &m.mutex, nil)
 
 	m.cond.Broadcast()
+	verifPoint("close.broadcast", &m.mutex, nil)
 
 	for _, stream := range m.streams {
 		stream.close()
@@ -524,6 +526,7 @@ func (m *Muxer) rotateParts(nextDTS time.Duration) error {
 	m.mutex.Lock()
 	err := m.rotatePartsInner(nextDTS)
 	m.mutex.Unlock()
+	verifPoint("rotate.unlocked", &m.mutex, "parts")
 
 	if err != nil {
 		return err
@@ -561,6 +564,7 @@ func (m *Muxer) rotateSegments(
 	m.mutex.Lock()
 	err := m.rotateSegmentsInner(nextDTS, nextNTP, force)
 	m.mutex.Unlock()
+	verifPoint("rotate.unlocked", &m.mutex, "segments")
 
 	if err != nil {
 		return err
@@ -609,7 +613,9 @@ func (m *Muxer) handleMultivariantPlaylist(w http.ResponseWriter, r *http.Reques
 				break
 			}
 
+			verifPoint("wait.park", &m.mutex, r)
 			m.cond.Wait()
+			verifPoint("wait.wake", &m.mutex, r)
 		}
 
 		buf, err := m.generateMultivariantPlaylist(r.URL.RawQuery)
